@@ -17,7 +17,7 @@ use crate::{Meta, Property};
 
 pub struct C08;
 
-pub const NUM_SCRIPTS: u64 = 14;
+pub const NUM_SCRIPTS: u64 = 15;
 const SHARDS: u64 = 8;
 const KINDS: u64 = 6; // eof, read error, garbage, write error, server close, handle drop
 
@@ -83,6 +83,15 @@ pub fn base_script(idx: u64, variant: u64) -> Scenario {
             // typed requests: conversion happens in the caller after the reply
             s.callers = vec![(ms(20), vec![Step::Do(Req::TypedTuple { arity: 3, rot: 0, base: 10 }), Step::Do(Req::TypedUpdate { token: 5 })])];
         }
+        14 => {
+            // the application does not poll its events receiver before the end: 150 unread changes when the fault comes
+            s.events_lazy = true;
+            // (spaced so that each change gets an idle reply of its own: the server reports a SET of changed subsystems;
+            // default transport whatever the variant)
+            s.notifications = (0..100u64).map(|k| (ms(30 + 3 * k), vec![["player", "mixer", "options"][(k % 3) as usize].to_string()])).collect();
+            s.callers = vec![(ms(61), vec![Step::Do(Req::Raw { shape: 1 })])];
+            return s;
+        }
         _ => {
             s.world.c2s_latency = vec![ms(5)];
             s.world.reply_delay = vec![ms(5)];
@@ -97,6 +106,8 @@ pub fn base_script(idx: u64, variant: u64) -> Scenario {
             s.world.seg = vec![SegPolicy::PerLine];
             s.world.chunk_delay = vec![ms(1)];
             s.world.read_cap = 7;
+            // and a transport whose shutdown never completes
+            s.world.shutdown_stalls = true;
         }
         _ => {
             s.world.seg = vec![SegPolicy::Random(5)];
@@ -155,9 +166,14 @@ fn check(acc: &mut Acc, case: u64, sc: &Scenario, inj: &Injected, out: &Outcome,
     let dropped = matches!(inj, Injected::DropHandles(_));
     // 2. replies: whatever resolved Ok must be the right reply; completely delivered replies must resolve Ok
     c01::check(acc, case, sc, out, &a, false);
-    // no invented, duplicated or reordered subsystem event on the way down either (C04's prefix clause)
+    // no invented, duplicated or reordered subsystem event on the way down either, and every change of an
+    // idle/noidle reply the client completely read before the end has become an event (C04): the library
+    // parses a reply in the poll that reads its last byte and publishes its changes before it awaits again, so
+    // no fault can come between
     if garbage_at.is_none() {
-        super::c04::check(acc, case, sc, out, &a, false);
+        if super::c04::check(acc, case, sc, out, &a, true).is_some() {
+            return;
+        }
     }
     let calls = a.calls();
     let total = a.total_delivered();
@@ -412,7 +428,7 @@ impl Property for C08 {
         Meta {
             level: "fault_enumeration",
             rule: format!(
-                "{} base scripts (idle with notifications, one request, three queued callers, pipelined, command list, failing list, notification racing a request, requests inside/after the re-idle window, chunked album art, big reply, password handshake, cancellation, typed lists, crossing noidle) x transport variants are first run fault-free to measure the server->client stream length L, the number of write calls W and the instants at which anything happened; then EVERY position is enumerated: end of stream after byte k (k = greeting..L), persistent read error after byte k, each of 6 malformed lines spliced at every line start, persistent write error from write call j (j = 0..W), server-side close and drop of all client handles at every event instant (+-1 us); plus random fault plans on random scenarios; oracle per session: nothing pending at a far virtual deadline, replies completely received resolve Ok with the right content, every call ends, is_connection_closed() true at quiescence, a later request resolves with an error, at most one closing event and nothing after it, event stream ends, a non-clean failure reaches the in-flight caller (or any caller / a closing event if none was in flight), transport dropped; non-trivial = fault session in which a request was queued or in flight; distinct by (script, fault kind, loop state at the fault, open calls)",
+                "{} base scripts (idle with notifications, one request, three queued callers, pipelined, command list, failing list, notification racing a request, requests inside/after the re-idle window, chunked album art, big reply, password handshake, cancellation, typed lists, crossing noidle, 100 changes piled up in an events receiver the application does not poll) x transport variants are first run fault-free to measure the server->client stream length L, the number of write calls W and the instants at which anything happened; then EVERY position is enumerated: end of stream after byte k (k = greeting..L), persistent read error after byte k, each of 6 malformed lines spliced at every line start, persistent write error from write call j (j = 0..W), server-side close and drop of all client handles at every event instant (+-1 us); plus random fault plans on random scenarios; oracle per session: nothing pending at a far virtual deadline, replies completely received resolve Ok with the right content, every call ends, is_connection_closed() true at quiescence, a later request resolves with an error, at most one closing event and nothing after it, event stream ends, a non-clean failure reaches the in-flight caller (or any caller / a closing event if none was in flight), transport dropped; non-trivial = fault session in which a request was queued or in flight; distinct by (script, fault kind, loop state at the fault, open calls)",
                 scripts_for(cfg.tier).len()
             ),
             nontrivial_set: "nontrivial",
